@@ -51,6 +51,9 @@ pub struct Plan {
     /// expected result of `propose_version` (None = not proposed)
     pub propose_ok: Option<bool>,
     pub eff_ver: Ver,
+    /// the proposal is valid for the branch and the content, but a `bundle_required` pool cannot be
+    /// carried by the proposed version: acceptance and rejection are both tolerated
+    pub propose_undecided: bool,
     /// a required all-dummy bundle in a pool that the effective version cannot carry: the property
     /// does not say whether the builder should refuse or omit it; only result-side consistency is
     /// checked.
@@ -79,7 +82,10 @@ impl Plan {
     }
 }
 
-pub fn plan(c: &Case) -> Plan {
+/// `reject_undecided`: assume that a proposal whose validity the property leaves open (see
+/// `Plan::propose_undecided`) is rejected by the builder; the caller first plans with `false` and
+/// re-plans with `true` when the builder does reject it.
+pub fn plan(c: &Case, reject_undecided: bool) -> Plan {
     let lay = &LAYOUTS[c.layout as usize];
     let br = ref_branch(lay, c.height);
     let z212 = ref_zip212(lay, c.height);
@@ -200,8 +206,15 @@ pub fn plan(c: &Case) -> Plan {
             && (!iro_content || (v.has_ironwood() && br >= Br::Nu6_3))
     };
     let mut eff_ver = ref_default_version(br);
+    let mut propose_undecided = false;
     let propose_ok = c.propose.map(|(v, late)| {
-        let ok = ref_version_valid(v, br) && (!late || content_compatible(v));
+        let mut ok = ref_version_valid(v, br) && (!late || content_compatible(v));
+        // a `bundle_required` (all-dummy) bundle of a pool that `v` cannot carry: neither the
+        // property nor the rustdoc says whether the proposal is acceptable
+        if ok && ((orc_exists && c.orc_pad.required && !v.has_orchard()) || (iro_exists && c.iro_pad.required && !v.has_ironwood())) {
+            propose_undecided = true;
+            ok = !reject_undecided;
+        }
         if ok {
             eff_ver = v;
         }
@@ -345,6 +358,7 @@ pub fn plan(c: &Case) -> Plan {
         solved,
         propose_ok,
         eff_ver,
+        propose_undecided,
         undecided_shape,
         causes,
         omit_tkey,
